@@ -171,6 +171,87 @@ def run_tik(exe, env, base, i, rec):
     return cmd, rc, out, tables
 
 
+# graded spectra: matrix entries and solution components arrive as term lists (sums of n/d * 2^-e resp.
+# n/d * 2^p / (1 + 2^-q)); Python only converts them to doubles
+def gr_matrix(rec):
+    return [[sum(t["n"] / float(t["d"]) * 2.0 ** -t["e"] for t in cell) for cell in row] for row in rec["Aterms"]]
+
+
+def gr_solution(rec):
+    return [sum(t["n"] / float(t["d"]) * 2.0 ** t["p"] / (1.0 + 2.0 ** -t["q"]) for t in comp) for comp in rec["xterms"]]
+
+
+def run_gr(exe, env, base, i, rec):
+    d = os.path.join(base, "g%06d" % i)
+    shutil.rmtree(d, ignore_errors=True)
+    os.makedirs(d)
+    with open(os.path.join(d, "sys.gmc"), "w") as f:
+        for row in gr_matrix(rec):
+            f.write(" ".join(repr(v) for v in row) + "\n")
+    with open(os.path.join(d, "sys.imc"), "w") as f:
+        for g, b in zip(rec["grid"], rec["b"]):
+            f.write("%s %s\n" % (repr(g / GRID), num(b)))
+    with open(os.path.join(d, "sys.idx"), "w") as f:
+        for e in rec["idx"]:
+            f.write("%s %s\n" % (tname(rec, e["name"]), render_range(e["blocks"])))
+    cmd = [exe, "-i", "sys.imc", "-g", "sys.gmc", "-n", "sys.idx", "-r", repr(2.0 ** -rec["t"])]
+    e = dict(os.environ)
+    e.update(env)
+    try:
+        p = subprocess.run(cmd, cwd=d, stdout=subprocess.PIPE, stderr=subprocess.STDOUT, text=True, timeout=120, env=e)
+        rc, out = p.returncode, p.stdout
+    except subprocess.TimeoutExpired:
+        rc, out = -999, "TIMEOUT"
+    tables = {}
+    for path in glob.glob(os.path.join(d, "*.dpot.imc")):
+        tables[os.path.basename(path)[:-len(".dpot.imc")]] = [ln.split() for ln in open(path) if ln.split()]
+    shutil.rmtree(d, ignore_errors=True)
+    return cmd, rc, out, tables
+
+
+def gr_class(rec):
+    live = [e for e in rec["e"] if e >= 0]
+    tiny = any(e >= 20 for e in live)
+    return "%s:%s" % ("tiny-sigma" if tiny else "moderate-sigma", "small-r" if rec["t"] >= 20 else "moderate-r")
+
+
+def compare_gr(ctx, rec, rc, out, tables):
+    if rc == -999:
+        raise vlib.InfraError("csg_imc_solve timed out")
+    if "error while loading shared libraries" in out or "file too short" in out:
+        raise vlib.InfraError("csg_imc_solve could not be loaded: " + out[-300:])
+    if rc != 0:
+        return [("imc_solve:run:exit", "csg_imc_solve exit status %s: %s" % (rc, out[-300:]))]
+    x = gr_solution(rec)
+    scale = max([abs(v) for v in x] + [1e-300])
+    # the real solver works in double precision: admissible error grows with cond(A^T A + r I) = 2^condlog2
+    tol = 1e-7 + 4e-15 * 2.0 ** rec["condlog2"]
+    bad = []
+    for t in rec["tables"]:
+        nm = tname(rec, t["name"])
+        rows = tables.get(nm)
+        if rows is None or len(rows) != len(t["rows"]):
+            bad.append(("imc_solve:split:rows", "table %s.dpot.imc: %s rows, expected %d" % (nm, None if rows is None else len(rows), len(t["rows"]))))
+            continue
+        for k, (r_, (g, pos)) in enumerate(zip(rows, t["rows"])):
+            ctx.count(2)
+            try:
+                gx, y = float(r_[0]), float(r_[1])
+            except (ValueError, IndexError):
+                bad.append(("imc_solve:split:format", "%s.dpot.imc row %d: %s" % (nm, k + 1, r_)))
+                break
+            if not vlib.close(gx, g / GRID, 1e-9, 1e-12):
+                bad.append(("imc_solve:split:grid", "%s.dpot.imc row %d: grid value %r, expected %r" % (nm, k + 1, gx, g / GRID)))
+                break
+            if not abs(y - x[pos - 1]) <= tol * scale:
+                bad.append(("imc_solve:solution:graded:" + gr_class(rec),
+                            "%s.dpot.imc row %d: written %r, solution of (A^T A + r I) x = -A^T b is %.10g (|x|max %.3g, "
+                            "singular values 2^-%s, r = 2^%d, cond 2^%d, tolerance %.1e)" % (
+                                nm, k + 1, y, x[pos - 1], scale, rec["e"], -rec["t"], rec["condlog2"], tol)))
+                break
+    return bad
+
+
 def tik_class(rec):
     return "%s:%s" % ("rpos" if rec["rn"] > 0 else "rzero", "sym" if rec["sym"] else "nonsym")
 
@@ -253,11 +334,19 @@ def con_cmd_scaled(rec):
     return "cq %d %d %d %s" % (rec["m"], rec["n"], rec["p"], " ".join(flat))
 
 
-def compare_con(ctx, rec, lines, scaled=False):
+def hist_cmd(rec):
+    parts = ["cqseq %d %d %d %d" % (len(rec["calls"]), rec["m"], rec["n"], rec["p"])]
+    for mode, c in zip(rec["mode"], rec["calls"]):
+        flat = [v for row in c["A"] for v in row] + list(c["b"]) + [v for row in c["C"] for v in row]
+        parts.append(mode + " " + " ".join(num(v) for v in flat))
+    return " ".join(parts)
+
+
+def compare_con(ctx, rec, lines, scaled=False, infix=""):
     """returns [(key, text)] ; lines = driver output of the one command.  scaled: the routine was given diag(2^k) C;
     the expectation is the SAME rational (row scaling does not change the minimiser) and C x = 0 is evaluated
     against the unscaled C of the TLC record."""
-    tag = "constrained_qrsolve:p=%d" % rec["p"] + (":row-scaled" if scaled else "")
+    tag = "constrained_qrsolve:p=%d" % rec["p"] + (":row-scaled" if scaled else "") + infix
     ex = [ln for ln in lines if ln.startswith("exc")]
     if ex:
         if rec["zerocol"] and "zero_column" in ex[0]:
@@ -268,7 +357,7 @@ def compare_con(ctx, rec, lines, scaled=False):
     if not xl:
         return [(tag + ":no-result", "no result line: %s" % lines)]
     try:
-        x = [float(t) for t in xl[0].split()[1:]]
+        x = [float(t) for t in xl[0].split("sameaddr")[0].split()[1:]]
     except ValueError:
         return [(tag + ":no-result", "unparseable result: %s" % xl[0])]
     if len(x) != rec["n"] or any(v != v or v in (float("inf"), float("-inf")) for v in x):
@@ -597,7 +686,7 @@ def _tlc(ctx, cfg, what, env, timeout=2400, expect=None, workers=4, module="MCLs
 
 
 def _run(ctx, quick, workers, exe_imc, exe_drv, env, base, exe_fm):
-    tik, con, fms = [], [], []
+    tik, con, fms, hists, grs = [], [], [], [], []
     replay_key = None
     if getattr(ctx, "replay", None):
         art = json.load(open(ctx.replay))
@@ -605,7 +694,7 @@ def _run(ctx, quick, workers, exe_imc, exe_drv, env, base, exe_fm):
         if str(art.get("key", "")).startswith(("imc_solve:solution", "imc_solve:split:wrong-rows")):
             replay_key = art["key"]     # one system alone cannot tell solver from splitting: keep the recorded class
         rec.pop("cmd", None)
-        (fms if rec["k"] == "fm" else tik if rec["k"] in ("tik", "xt") else con).append(rec)
+        (grs if rec["k"] == "gr" else hists if rec["k"] == "hist" else fms if rec["k"] == "fm" else tik if rec["k"] in ("tik", "xt") else con).append(rec)
     else:
         wide = {"C06_WIDE": 0 if quick else 1}
         # ---- negative controls: the stated laws refute wrong models -------------------------------
@@ -640,6 +729,14 @@ def _run(ctx, quick, workers, exe_imc, exe_drv, env, base, exe_fm):
                 if len(got) < n // 2:
                     raise vlib.InfraError("too few well-posed constrained systems: %d of %d" % (len(got), n))
             dest += got
+        _tlc(ctx, "MCLsqCtl_grP", "", {}, expect="GrNormalEq", timeout=600)
+        grs += [r for r in _tlc(ctx, "MCLsqGraded", "Lsq: orthogonal factors, exponent identities, exact normal equations on the small sub-family",
+                                {"C06_SEED0": seed0, "C06_NSEEDS": 120 if quick else 4000}) if r["k"] == "gr"]
+        grs.sort(key=lambda r: r["s"])
+        nh = 150 if quick else 6000
+        hists += _tlc(ctx, "MCLsqHist", "Lsq: every call of a history satisfies KKT, C x = 0, gradient in rowspace(C) on its own data",
+                      {"C06_SEED0": seed0, "C06_NSEEDS": nh})
+        hists.sort(key=lambda r: r["s"])
         # vacuity guards of the minimiser lemmas (evaluated by TLC where the numbers are small)
         small_t = sum(1 for r in tik if r["n"] <= 2 and r["rd"] == 1 and r["rn"] > 0 and abs(r["den"]) <= 400
                       and max(abs(v) for v in r["num"]) <= 400)
@@ -692,6 +789,28 @@ def _run(ctx, quick, workers, exe_imc, exe_drv, env, base, exe_fm):
         ctx.violation(key, text + " " + tik_text(rec, cmd), r2)
     ctx.extra["tikhonov_systems_by_n"] = {str(k): v for k, v in sorted(shapes.items())}
 
+    # ---- (i b) csg_imc_solve on graded spectra ------------------------------------------------------------
+    if grs:
+        def gwork(a):
+            return run_gr(exe_imc, env, base, a[0], a[1])
+        with ThreadPoolExecutor(max_workers=workers) as ex:
+            gouts = list(ex.map(gwork, list(enumerate(grs))))
+        gcls = {}
+        for i, (rec, (cmd, rc, out, tables)) in enumerate(zip(grs, gouts)):
+            ctx.traces += 1
+            gcls[gr_class(rec)] = gcls.get(gr_class(rec), 0) + 1
+            ctx.nontriv(("gr", rec["s"]))
+            bad = compare_gr(ctx, rec, rc, out, tables)
+            if bad:
+                cmd2, rc2, out2, tables2 = run_gr(exe_imc, env, base, 5000000 + i, rec)
+                bad2 = {k for k, _ in compare_gr(ctx, rec, rc2, out2, tables2)}
+                for key, text in bad:
+                    if key in bad2:
+                        ctx.violation(key, text + " [%s]" % " ".join(cmd[1:]), rec)
+        ctx.extra["graded_spectrum_systems"] = gcls
+        if not getattr(ctx, "replay", None) and not gcls.get("tiny-sigma:small-r"):
+            raise vlib.InfraError("no graded-spectrum system with a singular value below 1e-6 and r below 1e-6: %s" % gcls)
+
     # ---- (ii) linalg_constrained_qrsolve ----------------------------------------------------------------
     items = [(i, [con_cmd(r), con_cmd_scaled(r)]) for i, r in enumerate(con)]
     if con and not getattr(ctx, "replay", None) and not any(
@@ -720,6 +839,32 @@ def _run(ctx, quick, workers, exe_imc, exe_drv, env, base, exe_fm):
         if i in (0, len(con) - 1):
             ctx.sample({"linalg_constrained_qrsolve": con_text(rec), "x": "%s/%d" % (rec["num"], rec["den"])})
     ctx.extra["constrained_systems_by_shape"] = shapes
+
+    # ---- (ii b) call histories of linalg_constrained_qrsolve ------------------------------------------------
+    if hists:
+        items = [(i, [hist_cmd(r)]) for i, r in enumerate(hists)]
+        results, crashes = vlib.run_items(exe_drv, items, env=env)
+        ninplace = nsame = 0
+        for i, rec in enumerate(hists):
+            ctx.traces += 1
+            ctx.nontriv(("hist", rec["s"]))
+            if i in crashes:
+                ctx.violation("constrained_qrsolve:history:crash", "driver aborted during a call history: %s" % crashes[i], rec)
+                continue
+            lines = results[i][0]
+            if len(lines) != len(rec["calls"]):
+                ctx.violation("constrained_qrsolve:history:no-result", "call history gave %d result lines for %d calls: %s" % (
+                    len(lines), len(rec["calls"]), lines), rec)
+                continue
+            for k, (mode, call, ln) in enumerate(zip(rec["mode"], rec["calls"], lines)):
+                ninplace += mode == "inplace"
+                nsame += ln.endswith("sameaddr 1")
+                for key, text in compare_con(ctx, call, [ln], infix=":history:" + mode):
+                    ctx.violation(key, "call %d of %d (%s; modes %s): %s %s" % (k + 1, len(rec["calls"]), mode, rec["mode"], text,
+                                                                              con_text(call)), rec)
+        ctx.extra["call_histories"] = {"histories": len(hists), "inplace_calls": ninplace, "calls_seeing_the_same_address": nsame}
+        if not getattr(ctx, "replay", None) and (ninplace == 0 or nsame == 0):
+            raise vlib.InfraError("call histories never reused the constraint matrix object (%d, %d)" % (ninplace, nsame))
 
     # ---- (iii) csg_fmatch: block independence and reproduction of representable force functions ------------
     if fms:
